@@ -41,6 +41,8 @@ def main():
     demo_src = open(demo).read().split("\n")
     demo_src = [("pass  # " + l.strip() if ("assert" in l and "/tmp/mut_" in l) else l) if not l.startswith((" ", "\t")) or "/tmp/mut_" not in l
                 else (l[:len(l) - len(l.lstrip())] + "pass  # " + l.strip() if "assert" in l else l) for l in demo_src]
+    demo_src = [(l[:len(l) - len(l.lstrip())] + "pass  # " + l.strip()) if (l.strip().startswith("assert") and "eliot.__file__" in l) else l
+                for l in demo_src]
     # run it from its own directory (it may use helper files next to it)
     orig_demo = demo
     demo = os.path.join(os.path.dirname(os.path.abspath(orig_demo)), "_run_" + os.path.basename(orig_demo))
